@@ -808,6 +808,12 @@ func (rw *regWorld) prepare(op string) func() {
 		return func() { pe.Deliver(d) }
 	case "disc":
 		return func() { w.L.RemoveRemoteDeviceConnection(f[1]) }
+	case "read":
+		// read of the limit list: read:<peer>:<client>:<server>
+		p, c, sv := f[1], f[2], f[3]
+		pe := w.Peers[p]
+		d := pe.Datagram(cliAddr(p, c, true), srvAddr(sv, true), model.CmdClassifierTypeRead, false, nil, model.CmdType{LoadControlLimitListData: &model.LoadControlLimitListDataType{}})
+		return func() { pe.Deliver(d) }
 	case "lupd":
 		// local partial update of one item: lupd:<server>:<id>:<value>:<t|f|n changeability>
 		fl := rw.local(f[1])
